@@ -101,7 +101,24 @@ def project_spec(it):
             "resources": [{"id": "r1", "eff": it["eff"]}, {"id": "r2", "eff": it["eff"]}], "tasks": tasks}
 
 
+def fracres(tier):
+    """resolutions that are not whole minutes (the language accepts '7.5min'): two or three tasks back to back on one
+    resource; evaluated with the compiled extensions AND with the pure-Python fallbacks (item carries the mode)"""
+    for mode in ("rebuilt", "blocked"):
+        for L in (7.5, 2.5, 0.5):
+            for ef in ((45, 45), (20, 31, 8), (7, 8)):
+                for alap in (False, True):
+                    yield {"kind": "frac", "mode": mode, "L": L, "ef": ef, "alap": alap}
+
+
+def frac_spec(it):
+    tasks = [{"id": "abc"[i], "effort": m, "alloc": ["r1"], "prio": 900 - i} for i, m in enumerate(it["ef"])]
+    return {"dur": "1w", "res_min": it["L"], "alap": it["alap"], "resources": [{"id": "r1"}], "tasks": tasks}
+
+
 def to_spec(item):
+    if item["kind"] == "frac":
+        return frac_spec(item)
     if item["kind"] == "tb":
         from mc.props import c03
         return c03.tb_spec(item)
@@ -137,7 +154,7 @@ def evaluate(item):
 def payload(item, clause, detail):
     from mc import render
     spec = to_spec(item)
-    return {"item": item, "detail": detail, "spec": spec, "tjp": render.render(spec)}
+    return {"item": item, "detail": detail, "spec": spec, "tjp": render.render(spec), "mode": item.get("mode", "rebuilt")}
 
 
 def sample(item):
@@ -152,6 +169,8 @@ def run(ctx):
     explore(ctx, projects(ctx.tier), "mc.props.c01:evaluate", st, payload=payload, sample_of=sample)
     from mc.props import c03
     explore(ctx, c03.team_blockers(ctx.tier), "mc.props.c01:evaluate", st, payload=payload, sample_of=sample)
+    for mode in ("rebuilt", "blocked"):
+        explore(ctx, [it for it in fracres(ctx.tier) if it["mode"] == mode], "mc.props.c01:evaluate", st, mode=mode, payload=payload, sample_of=sample)
     from mc.props import wide
     wide.sweep(ctx, st, "C01")
     common.vacuity_guard(ctx, st)
